@@ -163,14 +163,18 @@ Section Bound.
     destruct e; try discriminate; cbn [bodies_ok]; auto.
   Qed.
 
-  Lemma finish_body_bodies m t v hs data dr (bs : bstat S) ka acc :
+  Lemma finish_body_bodies m t v h data dr (bs : bstat S) ka acc :
     blen data <= B ->
-    bodies_ok B acc (fst (finish_body (EvReq m t v hs) data dr bs ka)) = true.
+    bodies_ok B acc (fst (finish_body (req_evs m t v h) data dr bs ka)) = true.
   Proof.
     intros Hd. unfold finish_body.
     assert (P : forall tl, forallb (fun e => match e with EvBody _ => false | _ => true end) tl = true ->
-                           bodies_ok B acc ((EvReq m t v hs :: body_ev data) ++ tl) = true).
-    { intros tl Htl. cbn [app bodies_ok]. destruct data as [|x data]; cbn [body_ev app bodies_ok].
+                           bodies_ok B acc ((req_evs m t v h ++ body_ev data) ++ tl) = true).
+    { intros tl Htl. unfold req_evs.
+      destruct (expects_continue h); cbn [app bodies_ok]; destruct data as [|x data]; cbn [body_ev app bodies_ok].
+      - apply bodies_ok_nobody. exact Htl.
+      - replace (0 + blen (x :: data) <=? B) with true by (symmetry; apply N.leb_le; lia).
+        apply bodies_ok_nobody. exact Htl.
       - apply bodies_ok_nobody. exact Htl.
       - replace (0 + blen (x :: data) <=? B) with true by (symmetry; apply N.leb_le; lia).
         apply bodies_ok_nobody. exact Htl. }
@@ -185,10 +189,11 @@ Section Bound.
     unfold serve_msg.
     destruct (rd_regex ops (max_header c) st) as [hd t1| |]; try reflexivity.
     destruct (parse_head hd) as [[[[m t] v] h0]|]; [|reflexivity].
-    destruct (can_keep_alive m v h0) as [ka|]; [|reflexivity].
+    destruct (can_keep_alive (no_keep_alive c) m v h0) as [ka|]; [|reflexivity].
     destruct (d_headers dl h0) as [h act].
     destruct (host_check v h); [|reflexivity].
-    destruct (body_plan (eff_max_body c) h) as [[|n|]|] eqn:Pl; [| | |reflexivity].
+    destruct (body_plan (eff_max_body c) h) as [[|n|]|] eqn:Pl;
+      [| | |cbn [fst]; unfold req_evs; destruct (expects_continue h); reflexivity].
     - apply finish_body_bodies. unfold blen; simpl; lia.
     - pose proof (H_body_len (chunk_pred c) n t1) as BL.
       destruct (rd_body ops (chunk_pred c) n t1) as [cs ob]. cbn [fst] in BL.
@@ -301,6 +306,7 @@ Proof.
       destruct Hc as [E _].
       apply (IH _ _ _ (acc + blen b)); [exact Ha| |exact Hb].
       unfold cur_ok. rewrite blen_app, E. split; [reflexivity|exact L].
+    + apply (IH _ _ _ acc); assumption.
     + destruct cur as [cu|]; [|cbn [reqs_ok]; exact Ha].
       apply (IH _ _ _ acc); [|exact I|exact Hb].
       rewrite forallb_app, Ha. cbn [forallb andb]. rewrite andb_true_r.
@@ -326,4 +332,43 @@ Proof.
   - destruct (dec_of i) eqn:D; [reflexivity|]. cbn [orb].
     unfold trace. rewrite D. unfold server_dlg.
     rewrite (seg_refines_whole plain_dlg (cfg_of i) plain_dlg_concat). apply obs_eqb_refl.
+Qed.
+
+(* ---------- the configured limit: 0 is a limit, None falls back to the stream's buffer size ---------- *)
+Lemma bodies_ok_mono B B' : (B <= B') -> forall evs acc, bodies_ok B acc evs = true -> bodies_ok B' acc evs = true.
+Proof.
+  intros L. induction evs as [|e r IH]; intros acc H; [reflexivity|].
+  destruct e; cbn [bodies_ok] in *; auto.
+  apply andb_true_iff in H as [A C]. apply N.leb_le in A.
+  replace (acc + blen b <=? B') with true by (symmetry; apply N.leb_le; lia). cbn [andb]. auto.
+Qed.
+
+Theorem configured_limit_respected i :
+  ov_of i = None ->
+  bodies_ok (conn_max_body (mb_of i) (sbuf_of i)) 0 (trace i) = true.
+Proof.
+  intros OV. pose proof (trace_bodies_bounded i) as H.
+  eapply bodies_ok_mono; [|exact H].
+  destruct i as [[[[[[[mh mb] sb] ov] cs] d] t] segs]. cbn [ov_of] in OV. subst ov.
+  unfold body_bound, eff_max_body. cbn [cfg_of dec_of mb_of sbuf_of body_override max_body].
+  destruct d; lia.
+Qed.
+
+Lemma bodies_ok_zero : forall evs, bodies_ok 0 0 evs = true -> forall b, In (EvBody b) evs -> b = [].
+Proof.
+  induction evs as [|e r IH]; intros H b I; [contradiction|].
+  destruct I as [->|I].
+  - cbn [bodies_ok] in H. apply andb_true_iff in H as [A _]. apply N.leb_le in A.
+    unfold blen in A. destruct b; [reflexivity|simpl in A; lia].
+  - destruct e; cbn [bodies_ok] in H; try (apply IH; assumption).
+    apply andb_true_iff in H as [A C]. apply N.leb_le in A.
+    assert (Z : 0 + blen b0 = 0) by lia. rewrite Z in C. apply IH; assumption.
+Qed.
+
+(* max_body_size=0 without override: no body byte ever reaches the application *)
+Theorem zero_limit_no_body_bytes i :
+  mb_of i = Some 0 -> ov_of i = None -> forall b, In (EvBody b) (trace i) -> b = [].
+Proof.
+  intros MB OV. apply bodies_ok_zero.
+  pose proof (configured_limit_respected i OV) as H. rewrite MB in H. exact H.
 Qed.
